@@ -221,15 +221,20 @@ Theorem C08_second_pass_is_verbatim :
 Proof. exact copy_output_stable. Qed.
 Print Assumptions C08_second_pass_is_verbatim.
 
-(* rtdc_copy (so: repack) leaves the software version chain alone. *)
-Theorem C08_copy_preserves_version :
+(* rtdc_copy (so: repack) leaves the software version chain alone, unless it
+   rewrites an internal basin definition (that goes through RTDCWriter, which
+   brands the destination file). *)
+Theorem C08_copy_version :
   forall (fexists fscalar fbmap defective : Z -> bool)
          (rekey : Z -> list Z -> Z) (sel : fsel)
          (inc_basins inc_logs inc_tables : bool) (f : h5file),
     f_soft (rtdc_copy fexists fscalar fbmap defective rekey sel inc_basins
-                      inc_logs inc_tables f) = f_soft f.
-Proof. exact copy_preserves_version. Qed.
-Print Assumptions C08_copy_preserves_version.
+                      inc_logs inc_tables f)
+    = if inc_basins
+         && basin_rewrites (feature_iter fscalar fbmap sel inc_basins f) f
+      then bump_version (f_soft f) else f_soft f.
+Proof. exact copy_version. Qed.
+Print Assumptions C08_copy_version.
 
 (* RTDCWriter.version_brand (compress, condense, tdms2rtdc open their output
    with the writer): the chain "a | b | c" of setup:software version gets
